@@ -140,6 +140,7 @@ func parseList(json string, line *int) (List, int, error) {
 		if char == '\n' {
 			*line++
 		}
+		verifStep(0, state, char, len(json)-i, *line)
 
 		switch state {
 
@@ -279,6 +280,7 @@ func parseObject(json string, line *int) (Object, int, error) {
 		if char == '\n' {
 			*line++
 		}
+		verifStep(1, state, char, len(json)-i, *line)
 
 		switch state {
 
